@@ -119,7 +119,7 @@ class Run:
         import collections
         summ = collections.Counter()
         for key, _ in self.violations:
-            summ[tuple((k, str(v)) for k, v in sorted(key.items()) if k in ("kind", "what", "cls", "D", "indexing", "session", "mode", "term", "order", "invariant"))] += 1
+            summ[tuple((k, str(v)) for k, v in sorted(key.items()) if k in ("kind", "what", "cls", "D", "indexing", "session", "mode", "term", "order", "invariant", "region", "symbol"))] += 1
         for k, v in summ.most_common(40):
             print(f"  [violation group x{v}] " + " ".join(f"{a}={b}" for a, b in k), flush=True)
         seen = 0
